@@ -288,6 +288,13 @@ func populateStruct(originalVal reflect.Value, vs []FieldValueTuple, inputIndex 
 		}
 		if anyChildSet {
 			setVal.Elem().Set(val)
+			// getUnderlyingKindType stripped every level of pointers;
+			// rebuild the outer ones for pointers to pointers (**T).
+			for t := originalVal.Type(); t.Kind() == reflect.Ptr && t.Elem().Kind() == reflect.Ptr; t = t.Elem() {
+				outer := reflect.New(setVal.Type())
+				outer.Elem().Set(setVal)
+				setVal = outer
+			}
 			originalVal.Set(setVal)
 		}
 		return inputIndex, anyChildSet, nil
